@@ -110,6 +110,26 @@ def pickb(pool: Sequence[Any], i: int) -> Any:
     return pool[lo]
 
 
+def cint(i: int, lo: int, hi: int) -> int:
+    """The concrete Python int equal to the (possibly symbolic) ``i`` in lo..hi, by explicit forks."""
+    return pickb(list(range(lo, hi + 1)), i)
+
+
+def untraced() -> Any:
+    """Context manager suspending CrossHair's opcode tracing (a no-op natively).  Used around real code that receives
+    ONLY concrete pool members (every symbolic parameter has been forked to a concrete value by ``pickb``/``cint``
+    before): the code then executes exactly as in CPython inside each solver-chosen path, without proxy artefacts
+    (e.g. CrossHair's ``dict()`` patch returns a ShellMutableMap that pydantic-core refuses to serialise) and without
+    the ~100x tracing overhead on pydantic's Python layers."""
+    try:
+        from crosshair.tracers import NoTracing
+    except Exception:  # pragma: no cover
+        import contextlib
+
+        return contextlib.nullcontext()
+    return NoTracing()
+
+
 TYPED_ATOMS: List[Any] = ["", "a", 0, 1, -1, 2**53 + 1, 0.5, None, True, False]
 
 
@@ -422,10 +442,15 @@ def _build_template() -> bytes:
 _TEMPLATE: List[bytes] = []
 
 
-def new_db() -> str:
-    """Path of a fresh migrated DB file inside a fresh directory (caller removes the directory)."""
+def ensure_template() -> None:
+    """Build the migrated DB image (call at harness import time, i.e. outside any traced/symbolic execution)."""
     if not _TEMPLATE:
         _TEMPLATE.append(_build_template())
+
+
+def new_db() -> str:
+    """Path of a fresh migrated DB file inside a fresh directory (caller removes the directory)."""
+    ensure_template()
     d = fresh_dir()
     p = os.path.join(d, "t.db")
     with open(p, "wb") as f:
